@@ -218,7 +218,11 @@ func C17(run *core.Run) {
 			b := c.Block
 			var doc *mocrelay.NIP11
 			if b.Present {
-				doc = &mocrelay.NIP11{Limitation: &mocrelay.NIP11Limitation{MaxFilters: b.Filters, MaxLimit: b.MaxLimit, MaxEventTags: b.Tags,
+				mml := 0
+				if i%2 == 0 {
+					mml = 1 // max_message_length is not enforced by the chain; it must not disturb the others
+				}
+				doc = &mocrelay.NIP11{Limitation: &mocrelay.NIP11Limitation{MaxMessageLength: mml, MaxFilters: b.Filters, MaxLimit: b.MaxLimit, MaxEventTags: b.Tags,
 					MaxContentLength: b.Content, CreatedAtLowerLimit: b.Lower, CreatedAtUpperLimit: b.Upper}}
 				desc = fmt.Sprintf("nip11{filters=%d,limit=%d,tags=%d,content=%d,lower=%d,upper=%d}", b.Filters, b.MaxLimit, b.Tags, b.Content, b.Lower, b.Upper)
 			} else {
